@@ -132,6 +132,12 @@ def reopen (c : Lru) (order : List (Key × Nat)) : Lru :=
     if n > acc.cap then { acc with files := eraseKey acc.files k }
     else (acc.addFile k n).1) fresh
 
+/-- `DiskCache::new` opens the index of a **read-only** cache with `u64::MAX` as its size limit (fix a5fe656, F-C15-a): nothing is ever
+    stored there, so nothing has to make room -/
+def u64Max : Nat := 18446744073709551615
+
+def openReadOnly (c : Lru) (order : List (Key × Nat)) : Lru := ({ c with cap := u64Max } : Lru).reopen order
+
 end Lru
 
 end LruM
